@@ -56,6 +56,7 @@ type EngCase struct {
 	NSs         []*namespace.Namespace
 	Tuples      []Tup // in storage order
 	Query       Tup
+	ViaOPL      bool // not part of the protocol: the configuration was accepted by the real OPL parser/type checker
 }
 
 func b2i(b bool) int {
